@@ -117,7 +117,14 @@ func c20Valid(e *core.Env, r *core.Rand, idx int64, d *gen.Out, text string, exa
 		return
 	}
 	pretty := r.Bool()
-	w["flags"] = fmt.Sprintf("pretty=%v %s", pretty, q.String())
+	in := []string{f}
+	if exact && r.Chance(1, 6) {
+		if parts, ok := splitAtRecord(e, r, d, "c20"); ok {
+			in = parts
+			e.Count("cases_with_two_input_files", 1)
+		}
+	}
+	w["flags"] = fmt.Sprintf("pretty=%v %s files=%d", pretty, q.String(), len(in))
 	clock := obs.ClockAt(today, 13*60+5, 0)
 	var out string
 	if idx%5 == 0 {
@@ -125,7 +132,7 @@ func c20Valid(e *core.Env, r *core.Rand, idx int64, d *gen.Out, text string, exa
 		if pretty {
 			args = append(args, "--pretty")
 		}
-		args = append(append(args, q.Args()...), f)
+		args = append(append(args, q.Args()...), in...)
 		res := obs.RunCLI(obs.CLIEnv{ConfigDir: e.Dir + "/cfg", Cpus: r.PickInt(1, 4), Clock: clock}, args...)
 		if res.Panic != nil {
 			e.Violation("json-panic: "+res.Panic.Site(), res.Panic.Value, w)
@@ -138,7 +145,7 @@ func c20Valid(e *core.Env, r *core.Rand, idx int64, d *gen.Out, text string, exa
 		out = res.Out
 		e.Count("cli_path_runs", 1)
 	} else {
-		res := runRO(e, &cli.Json{Pretty: pretty, FilterArgs: fa, SortArgs: sa, InputFilesArgs: util.InputFilesArgs{File: files(f)}}, r.PickInt(1, 4), "", "", clock)
+		res := runRO(e, &cli.Json{Pretty: pretty, FilterArgs: fa, SortArgs: sa, InputFilesArgs: util.InputFilesArgs{File: files(in...)}}, r.PickInt(1, 4), "", "", clock)
 		if res.Panic != nil {
 			e.Violation("json-panic: "+res.Panic.Site(), res.Panic.Value, w)
 			return
